@@ -11,15 +11,34 @@ Streams
             classes declared without a parent in the entry that first mentions `Object`, in later
             entries, inside functions, under a parameter called Object, with an explicit `: Object`,
             and in sessions that declare their own `Object` (let or class; re-declaring it later is
-            rejected) — fed line by line to `Vm::repl` (harness binary `vh_repl`).
+            rejected); channels, pure functions, accumulator instances and WORKER FUNCTIONS defined by
+            some entries, `launch`ed over by later ones, the fibers left queued in `Vm.fiber_queue` or
+            parked on a channel when their entry ends — across entries that raise, entries the
+            compiler rejects, and any number of other lines — and synchronised with (received from,
+            sent to) by later entries (vlib/props/c19_fibers.py: every session is a Kahn network, so
+            what the scripts receive does not depend on the schedule; 40% of the sessions) —
+            fed line by line to `Vm::repl` (harness binary `vh_repl`).
 Judgements (separately)
   implementation-vs-Spec   Spec = `vharness run` on the concatenation of the entries (failed entries
                            dropped, the executed prefix of a runtime-failing entry kept): same printed
-                           output, every good entry compiled, exactly the expected entries failed.
+                           output, every good entry compiled, exactly the expected entries failed;
+                           and, for the values scripts receive from fibers, the network's own
+                           (schedule-independent) evaluation in Python (`c19_fibers.plan`).
   model-vs-implementation  `drv_repl` (Lean `Model/Repl.lean`): per compiled entry and function, the
                            module slots of every DeclareModSym / GetModSym / SetModSym and the inline
                            cache sites WITH THEIR CACHE IDS (read back from the encoded bytes the
-                           compile-log hook recorded) must equal the model's.
+                           compile-log hook recorded) must equal the model's;  and (Lean
+                           `Model/ReplFibers.lean`: every script a new main fiber on the exact scheduler
+                           model of C08, in the run queue / fibers / channels the earlier entries left)
+                           per entry how `execute` ended and what the script received.
+Sessions on which that exact model runs into one of the scheduler findings C08 owns (lost wake-up, double
+queue entry, stale waiter entry — D5/D17/D18/D26, at the prompt or as one module) are not judged against the
+Spec, nor are those in the signature of DC19.3 (the model ends an entry with a deadlock report only when run
+entry by entry; there the implementation must still report the deadlock).
+Known findings this check owns, replayed on every run (known_findings/DC19.*/: session + control):
+DC19.1 a failed import consumes a module id without a cache entry; DC19.2 the main fiber of an entry that
+ended in a deadlock report is woken later and resumes at a stale ip; DC19.3 the wake-up a script owed when it
+ended is lost (a deadlock report at the prompt only).
 corpus/C19/04_d13_cache_replaced.json is the witness of the repaired finding D13 (cache numbering
 restarted and the cache vectors were replaced per entry); it runs first on every run.
 """
@@ -33,6 +52,7 @@ import subprocess
 import sys
 
 from .. import common
+from . import c19_fibers as fibers
 
 PROP = "C19"
 LEVEL = "proof"
@@ -63,6 +83,8 @@ class Gen:
         self.obias = 1        # weight of the statements about `Object`
         self.counter = 0
         self.all_names = set()
+        self.k = fibers.Kahn()   # the session's channels / fibers so far, as a Kahn network (see c19_fibers.py)
+        self.fbias = 1        # weight of the statements about channels and fibers
 
     def fresh(self, prefix):
         self.counter += 1
@@ -118,6 +140,12 @@ class Gen:
             choices += ["objuse"] * self.obias
         if self.cmakers:
             choices += ["cmcall", "cmcall"] * self.obias
+        if self.fbias > 1:
+            choices += ["chan", "pf", "wfn", "accinst"] * (self.fbias // 2)
+            if self.k.wf:
+                choices += ["launch", "launch"] * self.fbias
+            if self.k.inst:
+                choices += ["frecv", "frecv", "frecv", "fsend"] * self.fbias
         k = rng.choice(choices)
         st = getattr(self, "s_" + k)()
         if "Object" in st["refs"] and self.obj is None:
@@ -454,6 +482,165 @@ class Gen:
         return dict(text="print(%s(%s)().v());" % (f, arg), decls=[], refs=["print", f], funs=[], script=["g:print", "g:" + f, "i"],
                     calls=[f, f + ".L.v"])
 
+    # -- channels and fibers (c19_fibers.py): every script operation is tried on a copy of the Kahn network
+    #    first, so that no generated script blocks for ever --------------------------------------------
+    def s_chan(self):
+        c = self.fresh("ch")
+        cap = self.rng.choice([None, None, 1, 1, 2, 2, 3])
+        fib = {"chan": [c, cap]}
+        self.k.define(fib)
+        return dict(text="let %s = chan(%s);" % (c, "" if cap is None else cap), decls=[c], refs=[], funs=[], script=["s:" + c],
+                    calls=[], fib=fib)
+
+    def s_pf(self):
+        f = self.fresh("pf")
+        a, b = self.rng.randint(1, 4), self.rng.randint(0, 9)
+        fib = {"pf": [f, a, b]}
+        self.k.define(fib)
+        return dict(text="fn %s(p) { return p * %d + %d; }" % (f, a, b), decls=[f], refs=[], funs=[(f, [])], script=["s:" + f],
+                    calls=[], fib=fib)
+
+    def s_acccls(self):
+        c = self.fresh("Acc")
+        fib = {"acccls": c}
+        self.k.define(fib)
+        return dict(text="class %s { init() { self.n = 0; } add(x) { self.n = self.n + x; return self.n; } }" % c, decls=[c],
+                    refs=["Object"], funs=[(c + ".init", []), (c + ".add", [])], script=["s:" + c, "o", "g:" + c], calls=[], fib=fib)
+
+    def s_accinst(self):
+        if not self.k.acccls:
+            return self.s_acccls()
+        c = self.rng.choice(sorted(self.k.acccls))
+        a = self.fresh("a")
+        fib = {"acc": [a, c]}
+        self.k.define(fib)
+        return dict(text="let %s = %s();" % (a, c), decls=[a], refs=[c], funs=[], script=["g:" + c, "s:" + a], calls=[c + ".init"],
+                    fib=fib)
+
+    def fexpr(self, var, acc_param):
+        """an expression a worker sends: over the value it received last (if any), pure functions of earlier
+        entries and its accumulator"""
+        rng = self.rng
+        pfs = sorted(self.k.pf)
+        forms = ["k"]
+        if var:
+            forms += ["lin", "lin"]
+        if pfs:
+            forms += ["pfk"] + (["pf", "pf"] if var else [])
+        f = rng.choice(forms)
+        if f == "k":
+            e = ["k", rng.randint(0, 40)]
+        elif f == "lin":
+            e = ["lin", var, rng.randint(1, 3), rng.randint(0, 9)]
+        elif f == "pf":
+            e = ["pf", rng.choice(pfs), var]
+        else:
+            e = ["pfk", rng.choice(pfs), rng.randint(0, 9)]
+        if acc_param is not None and rng.random() < 0.6:
+            e = ["add", acc_param, e]
+        if rng.random() < 0.15:
+            e = ["plus", e, ["k", rng.randint(1, 5)]]
+        return e
+
+    def s_wfn(self):
+        rng = self.rng
+        w = self.fresh("w")
+        shape = rng.choice(["producer", "producer", "transformer", "transformer", "splitter"])
+        with_acc = bool(self.k.acccls) and rng.random() < 0.5
+        if shape == "producer":
+            kinds = ["o"]
+        elif shape == "transformer":
+            kinds = ["i", "o"]
+        else:
+            kinds = ["i", "o", "o"]
+        acc_param = None
+        if with_acc:
+            acc_param = len(kinds)
+            kinds = kinds + ["a"]
+        ops, nvar = [], 0
+        if shape == "producer":
+            for _ in range(rng.randint(1, 4)):
+                ops.append(["s", 0, self.fexpr(None, acc_param)])
+        else:
+            outs = [i for i, kd in enumerate(kinds) if kd == "o"]
+            for _ in range(rng.randint(1, 3)):
+                nvar += 1
+                var = "x%d" % nvar
+                ops.append(["r", 0, var])
+                for _ in range(rng.choice([1, 1, 1, 2])):
+                    ops.append(["s", rng.choice(outs), self.fexpr(var, acc_param)])
+            if rng.random() < 0.2:
+                ops.insert(0, ["s", outs[0], self.fexpr(None, acc_param)])
+        fib = {"wfn": [w, kinds, ops]}
+        self.k.define(fib)
+        sites = [o for op in ops if op[0] == "s" for o in fibers.expr_ops(op[2])]
+        refs = [o[2:] for o in sites if o.startswith("g:")]
+        return dict(text=fibers.wfn_text(w, kinds, ops), decls=[w], refs=refs, funs=[(w, sites)], script=["s:" + w], calls=[], fib=fib)
+
+    def try_main(self, op):
+        """apply one script operation to the network if it is well-formed and can complete"""
+        trial = fibers.snapshot(self.k)
+        if trial.main_op(op):
+            self.k = trial
+            return True
+        return False
+
+    def s_launch(self):
+        rng = self.rng
+        names = sorted(self.k.wf)
+        rng.shuffle(names)
+        for w in names[:3]:
+            kinds, _ = self.k.wf[w]
+            free_in = [c for c in self.k.order if self.k.ch[c]["rcv"] is None]
+            free_out = [c for c in self.k.order if self.k.ch[c]["snd"] is None]
+            free_acc = sorted(a for a in self.k.acc if self.k.acc[a]["owner"] is None)
+            rng.shuffle(free_in), rng.shuffle(free_out), rng.shuffle(free_acc)
+            actuals = []
+            for kd in kinds:
+                pool = free_in if kd == "i" else free_out if kd == "o" else free_acc
+                pool = [x for x in pool if x not in actuals]
+                if not pool:
+                    actuals = None
+                    break
+                actuals.append(pool[0])
+            if actuals is None:
+                continue
+            if self.try_main(["L", w, actuals]):
+                return dict(text="launch %s(%s);" % (w, ", ".join(actuals)), decls=[], refs=[w] + actuals, funs=[],
+                            script=["g:" + w] + ["g:" + a for a in actuals], calls=[], fib={"main": [["L", w, actuals]]})
+        # nothing to launch a fiber over yet: make what is missing
+        kinds = self.k.wf[names[0]][0]
+        if "a" in kinds and not [a for a in self.k.acc if self.k.acc[a]["owner"] is None]:
+            return self.s_accinst()
+        return self.s_chan()
+
+    def s_frecv(self):
+        cands = [c for c in self.k.order if self.k.ch[c]["rcv"] in (None, "main") and self.k.ch[c]["snd"] not in (None, "main")]
+        self.rng.shuffle(cands)
+        for c in cands:
+            if self.try_main(["r", c]):
+                return dict(text='print("r ${<- %s}");' % c, decls=[], refs=["print", c], funs=[], script=["g:print", "g:" + c, "i"],
+                            calls=[], fib={"main": [["r", c]]})
+        return self.s_fsend()
+
+    def s_fsend(self):
+        rng = self.rng
+        cands = [c for c in self.k.order if self.k.ch[c]["snd"] in (None, "main") and self.k.ch[c]["rcv"] not in (None, "main")]
+        rng.shuffle(cands)
+        pfs = sorted(self.k.pf)
+        for c in cands:
+            if pfs and rng.random() < 0.4:
+                f, n = rng.choice(pfs), rng.randint(0, 9)
+                a, b = self.k.pf[f]
+                v, text, refs = n * a + b, "%s(%d)" % (f, n), [f]
+            else:
+                v = rng.randint(0, 30)
+                text, refs = str(v), []
+            if self.try_main(["s", c, v]):
+                return dict(text="%s <- %s;" % (c, text), decls=[], refs=refs + [c], funs=[], script=["g:" + r for r in refs] + ["g:" + c],
+                            calls=[], fib={"main": [["s", c, v]]})
+        return self.s_launch() if self.k.wf and rng.random() < 0.5 else self.s_print()
+
     # -- erroneous statements ---------------------------------------------------------------
     def bad(self):
         rng = self.rng
@@ -514,10 +701,25 @@ def gen_session(rng):
         for _ in range(rng.randint(1, 3)):
             entries.append({"stmts": [g.s_inst()] + ([g.s_list()] if rng.random() < 0.3 else [])})
         n = rng.randint(4, 10)
+    if rng.random() < 0.4:
+        # profile "fibers": channels, pure functions, an accumulator class and worker functions first (each in
+        # its own entry), then launches, sends and receives mixed with everything else and with erroneous
+        # entries: fibers launched by one entry are left queued or parked when it ends and are
+        # synchronised with — received from, sent to — by entries any number of lines later
+        g.fbias = rng.choice([3, 5, 8])
+        pre = [g.s_chan(), g.s_chan()] + ([g.s_pf()] if rng.random() < 0.7 else []) + ([g.s_acccls()] if rng.random() < 0.6 else [])
+        rng.shuffle(pre)
+        for st in pre:
+            entries.append({"stmts": [st]})
+        for _ in range(rng.randint(1, 2)):
+            entries.append({"stmts": [g.s_wfn()]})
+        if rng.random() < 0.7:
+            entries.append({"stmts": [g.s_launch()]})
+        n = rng.randint(4, 11)
     for _ in range(n):
         note_object(g, entries)
         r = rng.random()
-        if r < 0.22:
+        if r < (0.3 if g.fbias > 1 else 0.22):
             b = g.bad()
             if b["fail"] == "runtime" and rng.random() < 0.5:
                 pre = [g.stmt() for _ in range(rng.randint(1, 2))]
@@ -546,12 +748,14 @@ def note_object(g, entries):
 
 def snapshot(g):
     return (list(g.nums), list(g.fns), list(g.classes), list(g.pclasses), list(g.insts), list(g.lists),
-            list(g.sfns), list(g.sclasses), list(g.smakers), list(getattr(g, "makers", [])), list(g.cmakers), [g.obj])
+            list(g.sfns), list(g.sclasses), list(g.smakers), list(getattr(g, "makers", [])), list(g.cmakers), [g.obj],
+            fibers.snapshot(g.k))
 
 
 def restore(g, s):
     (g.nums, g.fns, g.classes, g.pclasses, g.insts, g.lists, g.sfns, g.sclasses, g.smakers, g.makers, g.cmakers,
-     (g.obj,)) = [list(x) for x in s]
+     (g.obj,)) = [list(x) for x in s[:-1]]
+    g.k = fibers.snapshot(s[-1])
 
 
 # ---------------------------------------------------------------------------------------------
@@ -594,7 +798,8 @@ def concat_text(entries):
 
 def model_lines(entries):
     ls = ["reset"]
-    for e in entries:
+    pl = fibers.plan(entries, entry_fail) if fibers.has_fibers(entries) else None
+    for ei, e in enumerate(entries):
         syntax_ok = not any(s.get("fail") == "syntax" for s in e["stmts"])
         ls.append("entry %d %d" % (1 if syntax_ok else 0, 0 if entry_late(e) else 1))
         decls, refs, funs, script, calls = [], [], [], [], []
@@ -612,6 +817,8 @@ def model_lines(entries):
             ls.append("fun %s %s" % (name, " ".join(ops)))
         ls.append("script " + " ".join(script))
         ls.append("calls " + " ".join(calls))
+        if pl and f != "compile":
+            ls += fibers.model_fiber_lines(pl["per_entry"][ei], pl["bodies"])
         ls.append("end")
     return ls
 
@@ -672,6 +879,24 @@ def model_run(sessions):
     for s in sessions:
         res.append(out[pos:pos + len(s)])
         pos += len(s)
+    return res
+
+
+def model_file_run(sessions):
+    """the scheduler model on the channel / fiber operations of the CONCATENATED module (one script, one main
+    fiber): one result line per session that has fibers, None for the others"""
+    plans = [fibers.plan(s, entry_fail) if fibers.has_fibers(s) else None for s in sessions]
+    lines = [l for pl in plans if pl for l in fibers.file_mode_lines(pl)]
+    if not lines:
+        return [None] * len(sessions)
+    rc, out, err = common.run_lines([DRV], lines, timeout=1200)
+    res, pos = [], 0
+    for pl in plans:
+        if pl:
+            res.append(out[pos] if pos < len(out) else "")
+            pos += 1
+        else:
+            res.append(None)
     return res
 
 
@@ -749,8 +974,59 @@ def model_entry_lines(mlines):
     return comp, status, faults
 
 
+def repl_entry_outputs(rrec, n):
+    """what each of the n entries printed: the prompt is written before every line is read"""
+    return (rrec.get("stdout", "").split(PROMPT) + [""] * (n + 1))[1:n + 1]
+
+
+def received(text):
+    return [l[len(fibers.RLINE):] for l in text.split("\n") if l.startswith(fibers.RLINE)]
+
+
+def scheduler_envelope(entries, mlines, fmline):
+    """None if the session stays clear of the known scheduler findings, judged on the exact scheduler model: at
+    the prompt and as one module every script must run to its end (or to its intended error) without a deadlock
+    report, a host assertion or a premature acknowledgement.  Otherwise (signature, description):
+      "DC19.3"           the model run entry by entry ends an entry with a deadlock report although the same
+                         operations as one script run clean (the wake-up an ended script owed is lost; owner C19);
+      "known-scheduler"  anything else: the findings C08 owns (D5, D17, D18, D26: lost wake-ups, double queue
+                         entries, stale waiter entries), at the prompt (there also through the stale entries of the
+                         dead main fibers of earlier entries) or as one module.
+    Such sessions are not judged against the Spec."""
+    prompt = None
+    only_deadlocks = True
+    for i, l in enumerate(mlines):
+        fb = fibers.parse_fib(l)
+        if l.startswith("ok|") and fb is None:
+            return "known-scheduler", "model line without scheduler half: %r" % l
+        if fb and (fb["end"] not in ("exit", "raised") or fb["premature"]):
+            prompt = prompt or "at the prompt, entry %d: %s, %d premature acknowledgements" % (i, fb["end"], fb["premature"])
+            only_deadlocks = only_deadlocks and fb["end"] in ("exit", "raised", "deadlock") and not fb["premature"]
+            if fb["end"] != "deadlock":
+                break       # a host assertion: nothing after it runs
+    fb = fibers.parse_fib(fmline or "")
+    module_clean = fb is not None and fb["end"] == "exit" and not fb["premature"]
+    if prompt:
+        return ("DC19.3" if only_deadlocks and module_clean else "known-scheduler"), prompt
+    if not module_clean:
+        return "known-scheduler", "as one module: %r" % (fmline,)
+    return None
+
+
 def judge(entries, rrec, crec, mlines, expected_stdout=None):
-    """Returns (kind, message) or None.  rrec: REPL record, crec: concatenation record."""
+    """Returns (kind, message) or None.  rrec: REPL record, crec: concatenation record,
+    mlines: (the model's line per entry, the scheduler model's line for the concatenated module or None)."""
+    mlines, fmline = mlines if isinstance(mlines, tuple) else (mlines, None)
+    pl = fibers.plan(entries, entry_fail) if fibers.has_fibers(entries) else None
+    if fibers.has_fibers(entries):
+        if pl is None:
+            return "ill-formed", "a script operation of the session can never complete (generator / shrinker candidate)"
+        env = scheduler_envelope(entries, mlines, fmline)
+        if env and env[0] == "DC19.3" and "Fatal error deadlock." not in rrec.get("stderr", ""):
+            return "tie", ("the scheduler model ends an entry of the session with a deadlock report (%s; known finding DC19.3), the "
+                           "implementation reports none (stderr %r)" % (env[1], rrec.get("stderr", "")[-200:]))
+        if env:
+            return env
     fails = [entry_fail(e) for e in entries]
     n_rt = sum(1 for f in fails if isinstance(f, tuple))
     n_ce = sum(1 for f, e in zip(fails, entries) if f == "compile" and not entry_late(e))   # never reach the encoder
@@ -774,6 +1050,8 @@ def judge(entries, rrec, crec, mlines, expected_stdout=None):
             ncomp, len(entries) - n_ce, err[-300:])
     if expected_stdout is not None and rout != expected_stdout:
         return "spec", "the session prints %r, expected %r" % (rout, expected_stdout)
+    if pl and received(rout) != [str(v) for v in pl["expect"]]:
+        return "spec", "the scripts received %r from their fibers; the network determines %r" % (received(rout), pl["expect"])
     comp, status, faults = model_entry_lines(mlines)
     if faults:
         return "tie", "the model reports out-of-range cache accesses (C19_cache_slots_in_range says it cannot): %s" % faults
@@ -784,6 +1062,18 @@ def judge(entries, rrec, crec, mlines, expected_stdout=None):
     if comp != ic:
         k = next((i for i in range(min(len(comp), len(ic))) if comp[i] != ic[i]), min(len(comp), len(ic)))
         return "tie", "compiled entry %d: model %r / implementation %r" % (k, comp[k:k + 1], ic[k:k + 1])
+    if pl:
+        # the scheduler half of the model, entry by entry: how `execute` ended and what the script received
+        outs = repl_entry_outputs(rrec, len(entries))
+        for i, (e, l, o) in enumerate(zip(entries, mlines, outs)):
+            fb = fibers.parse_fib(l)
+            if fb is None:
+                continue
+            want = "raised" if isinstance(fails[i], tuple) else "exit"
+            if fb["end"] != want:
+                return "tie", "entry %d: the scheduler model ends it with %r, the entry is built to end with %r" % (i, fb["end"], want)
+            if fb["main"] != received(o):
+                return "tie", "entry %d: the scheduler model's script receives %r, the implementation's %r" % (i, fb["main"], received(o))
     return None
 
 
@@ -800,7 +1090,8 @@ def run_sessions(sessions, workdir, base=0):
     rrecs = run_repl_batch(sfiles)
     crecs = common.run_batch(cfiles)
     models = model_run(sessions)
-    return rrecs, crecs, models
+    fmodels = model_file_run(sessions)
+    return rrecs, crecs, [(m, fm) for m, fm in zip(models, fmodels)]
 
 
 def shrink(entries, fails):
@@ -892,7 +1183,10 @@ def payload(entries, rrec, crec, mlines, kind, msg, seed):
             "repl": {"status": rrec.get("status"), "stdout": strip_prompts(rrec.get("stdout", "")), "stderr": rrec.get("stderr", "")[-800:],
                      "compile_log": impl_entry_lines(rrec, entries)},
             "file": {"status": crec.get("status"), "stdout": crec.get("stdout"), "stderr": crec.get("stderr", "")[-400:]},
-            "model": mlines, "replay": "./check C19 --replay <this file>"}
+            "model": mlines[0] if isinstance(mlines, tuple) else mlines,
+            "scheduler_model_on_the_concatenation": mlines[1] if isinstance(mlines, tuple) else None,
+            "fibers": (fibers.plan(entries, entry_fail) or {}).get("expect") if fibers.has_fibers(entries) else None,
+            "replay": "./check C19 --replay <this file>"}
 
 
 def stream_sessions(ctx, n, workdir, label="sessions", seed_mul=7919, search=False):
@@ -921,15 +1215,41 @@ def stream_sessions(ctx, n, workdir, label="sessions", seed_mul=7919, search=Fal
              "implicit_super_first_mention_GetModSym": 0, "implicit_super_later_entry_LoadGlobal": 0,
              "implicit_super_own_Object_LoadGlobal": 0, "implicit_super_inside_a_function": 0,
              "implicit_super_under_a_local_called_Object": 0, "explicit_Object_superclass": 0,
-             "sessions_declaring_their_own_Object": 0, "redeclaring_Object_rejected": 0}
+             "sessions_declaring_their_own_Object": 0, "redeclaring_Object_rejected": 0,
+             "sessions_with_fibers": 0, "sessions_in_a_known_scheduler_signature_not_judged": 0, "sessions_in_signature_DC19_3_not_judged": 0,
+             "sessions_receiving_after_a_runtime_error_entry_since_the_launch": 0,
+             "entries_ending_with_fibers_in_the_run_queue": 0, "entries_ending_with_fibers_parked_on_channels": 0,
+             "runtime_error_entries_ending_with_fibers_in_the_run_queue": 0, "max_run_queue_at_an_entry_end": 0}
     first = None
     CH = 300
     for off in range(0, len(sessions), CH):
         chunk = sessions[off:off + CH]
         rrecs, crecs, models = run_sessions(chunk, workdir, base=0)
         for k, (s, rr, cr, ml) in enumerate(zip(chunk, rrecs, crecs, models)):
+            jr = judge(s, rr, cr, ml, expected.get(off + k))
+            if jr and jr[0] in ("known-scheduler", "ill-formed", "DC19.3"):
+                stats["sessions_in_signature_DC19_3_not_judged" if jr[0] == "DC19.3" else
+                      "sessions_in_a_known_scheduler_signature_not_judged"] += 1
+                continue
             stats["sessions"] += 1
             stats["entries"] += len(s)
+            pl = fibers.plan(s, entry_fail) if fibers.has_fibers(s) else None
+            if pl and pl["fibers"]:
+                stats["sessions_with_fibers"] += 1
+                for key, v in pl["stats"].items():
+                    if key.startswith("max_"):
+                        stats[key] = max(stats.get(key, 0), v)
+                    else:
+                        stats[key] = stats.get(key, 0) + v
+                stats["sessions_receiving_after_a_runtime_error_entry_since_the_launch"] += (
+                    pl["stats"]["receives_after_a_runtime_error_entry_since_the_launch"] > 0)
+                for e, l in zip(s, ml[0]):
+                    fb = fibers.parse_fib(l)
+                    if fb:
+                        stats["entries_ending_with_fibers_in_the_run_queue"] += fb["runq"] > 0
+                        stats["entries_ending_with_fibers_parked_on_channels"] += fb["parked"] > 0
+                        stats["runtime_error_entries_ending_with_fibers_in_the_run_queue"] += fb["runq"] > 0 and fb["end"] == "raised"
+                        stats["max_run_queue_at_an_entry_end"] = max(stats["max_run_queue_at_an_entry_end"], fb["runq"])
             defined_in, sited = {}, set()
             later_calls = later_sited = entries_with_sites = 0
             failed_before = False
@@ -967,11 +1287,10 @@ def stream_sessions(ctx, n, workdir, label="sessions", seed_mul=7919, search=Fal
             stats["sessions_calling_sited_functions_from_later_entries"] += later_sited > 0
             stats["sessions_sites_in_3_or_more_entries"] += entries_with_sites >= 3
             stats["output_lines"] += cr.get("stdout", "").count("\n")
-            ctx.count_case(session_text(s), nontrivial=later_sited > 0 and any(entry_fail(e) for e in s))
-            if first is None:
-                j = judge(s, rr, cr, ml, expected.get(off + k))
-                if j:
-                    first = (s, rr, cr, ml, j)
+            ctx.count_case(session_text(s), nontrivial=(later_sited > 0 and any(entry_fail(e) for e in s)) or bool(
+                pl and pl["stats"]["receives_after_a_runtime_error_entry_since_the_launch"]))
+            if first is None and jr:
+                first = (s, rr, cr, ml, jr)
         if first:
             break
     ctx.stream_stat(label, **stats)
@@ -1010,6 +1329,63 @@ def report(ctx, kind, pl, workdir, n):
         ctx.violation("sessions_tie", pl, no_input=True)
 
 
+def _repl_in(cwd, session_file):
+    """one session through `vh_repl` with `cwd` as the prompt's root directory (`import self.x` reads x.lay there)"""
+    def no_core():
+        import resource
+        resource.setrlimit(resource.RLIMIT_CORE, (0, 0))      # a witness may abort the process: no core file
+
+    try:
+        p = subprocess.run([common.harness_path(bin="vh_repl")], input=session_file + "\n", stdout=subprocess.PIPE,
+                           stderr=subprocess.PIPE, text=True, timeout=120, cwd=cwd, preexec_fn=no_core)
+    except subprocess.TimeoutExpired:
+        return {"status": "TIMEOUT", "stdout": "", "stderr": ""}
+    for l in p.stdout.split("\n"):
+        if l.strip():
+            try:
+                return json.loads(l)
+            except ValueError:
+                break
+    return {"status": "CRASH:%s" % p.returncode, "stdout": "", "stderr": p.stderr[-400:]}
+
+
+def replay_known(ctx):
+    """The known findings this check owns (known_findings.jsonl, "owner": "C19"), each a prompt session with a
+    control next to it (the same session without the entry that sets the defect up), run with the witness
+    directory as the prompt's root:
+    DC19.1  `import self.bad;` (bad.lay does not compile) takes a module id without adding an entry to
+            `Vm.inline_cache`; the module a later entry imports indexes the vector out of bounds;
+    DC19.2  an entry that ends with `Fatal error deadlock.` leaves its main fiber in the channel's waiter list
+            with an unsaved ip; a later entry wakes it and it runs off its stack.
+    The control must print what it should; the witness either passes (noted), fails the recorded way
+    (KNOWN-FINDING) or is reported."""
+    for finding in common.load_findings(PROP):
+        kid = finding["id"]
+        wit = os.path.join(common.VERIF, finding.get("witness", ""))
+        kdir = os.path.dirname(wit)
+        ctl_file = os.path.join(kdir, "control_session.txt")
+        if not (kid.startswith("DC19.") and os.path.exists(wit) and os.path.exists(ctl_file)):
+            continue
+        exp = finding.get("expect", {})
+        want = exp.get("control_stdout", "")
+        ctl = _repl_in(kdir, ctl_file)
+        rec = _repl_in(kdir, wit)
+        key = kid.split("-")[0].replace(".", "_") + "_witness"
+        ctx.cov[key] = {"control": [ctl.get("status"), strip_prompts(ctl.get("stdout", ""))],
+                        "witness": [str(rec.get("status"))[:120], strip_prompts(rec.get("stdout", "")), rec.get("stderr", "")[-200:]]}
+        alive = ("Ok:0", "PANIC:Not enough test lines")
+        if strip_prompts(ctl.get("stdout", "")) != want or ctl.get("status") not in alive:
+            ctx.violation(key + "_control", {"kind": "implementation-vs-spec", "what": "the control of the %s witness does not print %r"
+                                             % (kid, want), "impl": ctl, "session_text": open(ctl_file).read()})
+        elif rec.get("status") in alive and strip_prompts(rec.get("stdout", "")) == exp.get("pass_stdout"):
+            ctx.cov[key]["note"] = "witness passes (finding no longer reproduces)"
+        elif str(rec.get("status", "")).startswith(exp.get("status_prefix", "CRASH")) and exp.get("stderr_contains", "") in rec.get("stderr", ""):
+            ctx.known(kid, finding["what"])
+        else:
+            ctx.violation(key, {"kind": "implementation-vs-spec", "what": "the %s witness neither passes nor fails the known way"
+                                % kid, "impl": rec, "session_text": open(wit).read()})
+
+
 def run(ctx):
     proved = ctx.prove("LaytheVerif.Props.C19", extra_targets=("drv_repl",))
     ok_c, out_c = common.cargo_build()
@@ -1031,8 +1407,16 @@ def run(ctx):
                        "an earlier sited function, half-declared let, re-declaring Object).  Parent-less classes in the entry "
                        "that first mentions Object (GetModSym of the new slot), in later entries and in sessions declaring "
                        "their own Object (LoadGlobal), inside functions, under a parameter called Object, explicit `: Object` "
-                       "(15% of the sessions are biased towards these).  non-trivial = some entry calls a function with an "
-                       "inline-cache site defined by an earlier entry and some entry fails; distinct by session text")
+                       "(15% of the sessions are biased towards these).  40% of the sessions (independently) start with channels "
+                       "(synchronous, capacity 1-3), pure functions, an accumulator class and worker functions (producers of 1-4 "
+                       "values, transformers and splitters that receive, compute with earlier entries' functions / their "
+                       "accumulator — property sites inside the fiber — and send) in entries of their own, then mix `launch`, "
+                       "sends to and receives from the fibers with all of the above and ~30% erroneous entries: fibers stay "
+                       "queued or parked across any number of entries; every script operation is tried on the Kahn network "
+                       "first so no script blocks for ever; one sender and one receiver per channel, so the received values are "
+                       "schedule independent.  non-trivial = some entry calls a function with an inline-cache site defined by "
+                       "an earlier entry and some entry fails, or a script receives from a fiber launched before an entry that "
+                       "raised; distinct by session text")
     try:
         n = ctx.n(3000, 30000)
         if not proved:
@@ -1049,6 +1433,7 @@ def run(ctx):
         ok, found = stream_sessions(ctx, n, workdir)
         if not ok:
             report(ctx, found[0], found[1], workdir, n)
+        replay_known(ctx)
     finally:
         shutil.rmtree(workdir, ignore_errors=True)
     ctx.assumptions += [
@@ -1057,6 +1442,16 @@ def run(ctx):
         "cache ids are tied to the code by reading them back from the encoded bytes of the compile log (instruction lengths parsed from SymbolicByteCode::len); the LENGTHS of the module's cache vectors are not observable through a hook: that ids stay below them is observed only as the absence of the debug assertion in cache.rs (the harness is built with debug assertions) and proved on the model (C19_cache_slots_in_range)",
         "that a slot keeps its cached state across entries (InlineCache::grow keeps the prefix) is not modelled; it is exercised by calling the same site with receivers of alternating classes from different entries",
         "entries are single lines; `Vm::repl` reads one line per entry",
+        "fibers: the scheduler half of the model (Model/ReplFibers.lean over Model/Sched.lean) is tied to the code by the sessions "
+        "stream (per entry: how execute ended, what the script received) and by the translated table of every use of "
+        "`fiber_queue` and of the members of self named by repl / interpret / prepare (Gen/ReplLoop.lean, [G] lemmas in "
+        "Props/C19); the run queue itself is not observable through a hook — its length after each entry is the model's "
+        "(evidence counters), checked only through what later entries receive",
+        "fiber sessions are Kahn networks (one sending and one receiving process per channel, no close, workers print nothing): "
+        "that the received values are schedule independent is the classical determinacy argument, not proved here; sessions "
+        "on which the exact scheduler model reports a known scheduler finding (owner C08) are generated but not judged",
+        "a fiber parked on a channel across entries is kept alive only through the channel's waiter list; collections in "
+        "between are not forced by this check (default thresholds: none happen in sessions this small)",
     ]
 
 
@@ -1076,7 +1471,10 @@ def replay(path):
     print("session:\n" + session_text(s))
     print("repl  :", rr[0].get("status"), repr(strip_prompts(rr[0].get("stdout", ""))))
     print("file  :", cr[0].get("status"), repr(cr[0].get("stdout")))
-    print("model :", ml[0])
+    print("model :", ml[0][0])
+    if ml[0][1] is not None:
+        print("scheduler model, as one module:", ml[0][1])
+        print("the network determines that the scripts receive:", (fibers.plan(s, entry_fail) or {}).get("expect"))
     print("impl  :", impl_entry_lines(rr[0], s))
     print("verdict:", j)
     return 1 if j else 0
